@@ -477,3 +477,32 @@ func RapidFlags() {
 	_ = flag.Set("rapid.seed", strconv.FormatInt(seed, 10))
 	_ = flag.Set("rapid.nofailfile", "true")
 }
+
+
+// IsKnownFinding reports whether the committed known-findings file lists the finding with
+// status "known" (a recorded, unrepaired defect). The file is only ever read.
+func IsKnownFinding(id string) bool {
+	path := os.Getenv("VERIF_KNOWN")
+	if path == "" {
+		path = "/verif/known_findings.json"
+	}
+	data, err := os.ReadFile(path)
+	if err != nil {
+		return false
+	}
+	var kf struct {
+		Findings []struct {
+			ID     string `json:"id"`
+			Status string `json:"status"`
+		} `json:"findings"`
+	}
+	if json.Unmarshal(data, &kf) != nil {
+		return false
+	}
+	for _, f := range kf.Findings {
+		if f.ID == id && f.Status == "known" {
+			return true
+		}
+	}
+	return false
+}
